@@ -50,6 +50,15 @@ def run(ctx):
         ctx.ob('Q4', 'Sampler.posterior:repeats-depend-on(%s)' % k, ok, f.where(reps[0].ast),
                'the repeat counts depend on %s' % k if ok else
                'the repeat counts do not depend on %s' % k)
+    draws = [c for c in walk_no_nested(f.node) if isinstance(c, ast.Call) and
+             dotted(c.func) == 'self.rng.random']
+    for c in draws:
+        dt = [k.value for k in c.keywords if k.arg == 'dtype']
+        ok = not dt or dotted(dt[0]) in ('np.float64', 'float', 'np.double')
+        ctx.ob('Q4', 'Sampler.posterior:uniform-draw-double-precision', ok, f.where(c),
+               'the rounding draw is a double-precision uniform' if ok else
+               'the rounding draw uses `dtype=%s`: on a 2^-24 grid P(u < f) is not f, so the '
+               'expected multiplicity is not r' % (dotted(dt[0]) if dt else '?'))
     ctx.floor('L5', 8, 'view obligations')
     ctx.not_decided += ['floor(r)/floor(r)+1 with expectation r; equal normalised weights '
                         '(arithmetic, not code shape)']
